@@ -137,3 +137,162 @@ Example C10_short_then_long_rejected :
   is_err (build ex_fcal ex_env Checked (fun l => l)
     (BWire 1 2 (DOk {| a_board := None; a_chan := A32 2; a_wf := [] |}) :: ex_banks)) = true.
 Proof. vm_compute. reflexivity. Qed.
+
+(* ===== end-to-end model (coq/Event/E2E.v): the run number and the RAW (bank name bytes, data bytes) list, decoded by
+   the models of C02-C06/C08, calibrated with the tables regenerated into Gen/Calib.v, assembled by Event.build. The only
+   hypothesis left is that the data are bytes. ===== *)
+From Coq Require Import Permutation.
+From AG Require Import Base.Prelude Base.Res Base.Bytes Ident.Tables.
+From AG Require Codec.Adc Codec.Chunk Codec.Reasm Codec.Pwb Codec.Trg Ident.Names Ident.Maps.
+From AG Require Import Event.Event Event.EventSpec Event.E2E Event.E2E_proofs.
+
+(* =============================================================================================== C10 *)
+(* an accepted build meets the declarative specification (Event/EventSpec.v) over the banks AS DECODED BY THE
+   MODELS from the raw bytes: every name parses; every wire / pad waveform is on the element its (board, channel) /
+   (board, chip, channel) maps to, as (raw - baseline) x gain after the delay, with map and calibration of the run;
+   all other slots empty; the timestamp is the TRG bank's *)
+Theorem C10_e2e_build_sound : forall (F : Type) (fcal : Z -> F -> F) (gain_of : Z * Z -> F) (m : ovf) (run : N) (banks : list (list N * list N))
+    (order : list (list chunkv) -> list (list chunkv)) (ev : event F),
+  Forall bytes (map snd banks) -> is_order order ->
+  try_from_banks_model fcal gain_of m run banks order = Ok ev ->
+  event_spec fcal (env_e2e_m gain_of m run) (decode_banks_m m banks) ev.
+Proof. exact e2e_build_sound. Qed.
+Print Assumptions C10_e2e_build_sound.
+
+(* the build succeeds exactly on the raw bank lists the specification admits - no extra hypothesis: the run's wire
+   map is one-to-one by C08 *)
+Theorem C10_e2e_build_spec_iff : forall (F : Type) (fcal : Z -> F -> F) (gain_of : Z * Z -> F) (m : ovf) (run : N) (banks : list (list N * list N)) (ev : event F),
+  Forall bytes (map snd banks) ->
+  ((exists order ev', is_order order /\ try_from_banks_model fcal gain_of m run banks order = Ok ev' /\ ev_eq ev' ev) <->
+   event_spec fcal (env_e2e_m gain_of m run) (decode_banks_m m banks) ev).
+Proof. exact e2e_build_spec_iff. Qed.
+Print Assumptions C10_e2e_build_spec_iff.
+
+(* boards are compared by their row in ALPHA16BOARDS / PADWING_BOARDS; the row lookups of the decoded views always
+   succeed: a long ADC packet always shows its board (`unwrap_or(bank name's board)` only applies to the 16-byte
+   suppressed form), a chunk and a reassembled packet always have a board row *)
+Theorem C10_e2e_board_rows_found : forall m : ovf,
+  (forall d f lg, bytes d -> Adc.adc_decode adc_macs m d = Ok f -> Adc.a_long f = Some lg ->
+     exists r, a_board (adcv_of f) = Some r) /\
+  (forall d c, bytes d -> Chunk.chunk_decode pwb_devices m d = Ok c -> exists r, pwb_row_of_dev (Chunk.c_dev c) = Some r) /\
+  (forall cs p, reasm_e2e m cs = DOk p -> p_board p <> no_row).
+Proof. exact e2e_board_rows_found. Qed.
+Print Assumptions C10_e2e_board_rows_found.
+
+(* one rejection statement per cause named in the property text, on the RAW banks (name bytes, data bytes); bundled
+   in one theorem (each `Print Assumptions` walks the whole development); the single lemmas are
+   e2e_reject_* in Event/E2E_proofs.v *)
+Theorem C10_e2e_rejections : forall (F : Type) (fcal : Z -> F -> F) (gain_of : Z * Z -> F) (m : ovf) (run : N)
+    (banks : list (list N * list N)) (order : list (list chunkv) -> list (list chunkv)),
+  Forall bytes (map snd banks) -> is_order order ->
+  let rejected := exists k, try_from_banks_model fcal gain_of m run banks order = Err k in
+  let D := decode_banks_m m banks in
+  (* unknown bank name *)
+  (forall n d, In (n, d) banks -> (forall k, Names.parse_main n <> Ok k) -> rejected) /\
+  (* malformed wire payload *)
+  (forall n d b c, In (n, d) banks -> Names.parse_main n = Ok (Names.KAdc32 b c) ->
+     (forall f, Adc.adc_decode adc_macs m d <> Ok f) -> rejected) /\
+  (* barrel-veto channel in a wire bank *)
+  (forall n d b c f, In (n, d) banks -> Names.parse_main n = Ok (Names.KAdc32 b c) ->
+     Adc.adc_decode adc_macs m d = Ok f -> Adc.a_chan f < 128 -> rejected) /\
+  (* payload channel differs from the name *)
+  (forall n d b c f, In (n, d) banks -> Names.parse_main n = Ok (Names.KAdc32 b c) ->
+     Adc.adc_decode adc_macs m d = Ok f -> 128 <= Adc.a_chan f -> Adc.a_chan f - 128 <> c -> rejected) /\
+  (* payload board (MAC address) differs from the name *)
+  (forall n d b c f lg b', In (n, d) banks -> Names.parse_main n = Ok (Names.KAdc32 b c) ->
+     Adc.adc_decode adc_macs m d = Ok f -> Adc.a_long f = Some lg -> a16_row_of_mac (Adc.al_mac lg) = Some b' ->
+     b' <> b -> rejected) /\
+  (* the same wire bank name twice *)
+  (forall l1 l2 l3 n d1 d2 b c, banks = l1 ++ (n, d1) :: l2 ++ (n, d2) :: l3 ->
+     Names.parse_main n = Ok (Names.KAdc32 b c) -> rejected) /\
+  (* no wire map for the run / board *)
+  (forall n d b c f lg, In (n, d) banks -> Names.parse_main n = Ok (Names.KAdc32 b c) ->
+     Adc.adc_decode adc_macs m d = Ok f -> Adc.a_long f = Some lg -> Adc.al_wave lg <> [] ->
+     (forall w, Maps.wire_position run b c <> Ok w) -> rejected) /\
+  (* no wire calibration for the run / wire *)
+  (forall n d b c f lg w, In (n, d) banks -> Names.parse_main n = Ok (Names.KAdc32 b c) ->
+     Adc.adc_decode adc_macs m d = Ok f -> Adc.a_long f = Some lg -> Adc.al_wave lg <> [] ->
+     Maps.wire_position run b c = Ok w -> wire_cal_e2e gain_of run w = DErr -> rejected) /\
+  (* malformed chunk *)
+  (forall n d b, In (n, d) banks -> Names.parse_main n = Ok (Names.KPwb b) ->
+     (forall c, Chunk.chunk_decode pwb_devices m d <> Ok c) -> rejected) /\
+  (* chunk of another board than the bank name says *)
+  (forall n d b c, In (n, d) banks -> Names.parse_main n = Ok (Names.KPwb b) ->
+     Chunk.chunk_decode pwb_devices m d = Ok c -> row_or_none (pwb_row_of_dev (Chunk.c_dev c)) <> b -> rejected) /\
+  (* the chunks of a (board, chip) do not reassemble into a valid packet *)
+  (forall k0, In k0 (gkeys D) -> reasm_e2e m (group k0 D) = DErr -> rejected) /\
+  (* no pad map for the run / board *)
+  (forall k0 p pc wf, In k0 (gkeys D) -> reasm_e2e m (group k0 D) = DOk p -> In (Pad pc, wf) (p_sent p) ->
+     (forall pos, Maps.pad_position run (p_board p) (p_chip p) pc <> Ok pos) -> rejected) /\
+  (* no pad calibration for the run / pad *)
+  (forall k0 p pc wf c r, In k0 (gkeys D) -> reasm_e2e m (group k0 D) = DOk p -> In (Pad pc, wf) (p_sent p) ->
+     Maps.pad_position run (p_board p) (p_chip p) pc = Ok (c, r) -> pad_cal_e2e gain_of run c r = DErr -> rejected) /\
+  (* a pad claimed twice *)
+  (~ NoDup (pad_claims (env_e2e_m gain_of m run) D) -> rejected) /\
+  (* malformed TRG payload *)
+  (forall n d, In (n, d) banks -> Names.parse_main n = Ok Names.KTrg -> (forall t, Trg.trg_decode d <> Ok t) ->
+     rejected) /\
+  (* two TRG banks *)
+  (forall l1 l2 l3 n d1 d2, banks = l1 ++ (n, d1) :: l2 ++ (n, d2) :: l3 -> Names.parse_main n = Ok Names.KTrg ->
+     rejected) /\
+  (* no TRG bank *)
+  ((forall n d, In (n, d) banks -> Names.parse_main n <> Ok Names.KTrg) -> rejected).
+Proof.
+  intros F fcal gain_of m run banks order Hb O. cbv zeta.
+  split; [exact (e2e_reject_unknown_name F fcal gain_of m run banks order Hb O)|].
+  split; [exact (e2e_reject_malformed_wire_payload F fcal gain_of m run banks order Hb O)|].
+  split; [exact (e2e_reject_bv_channel_in_wire_bank F fcal gain_of m run banks order Hb O)|].
+  split; [exact (e2e_reject_wire_channel_mismatch F fcal gain_of m run banks order Hb O)|].
+  split; [exact (e2e_reject_wire_board_mismatch F fcal gain_of m run banks order Hb O)|].
+  split; [exact (e2e_reject_duplicate_wire_bank F fcal gain_of m run banks order Hb O)|].
+  split; [exact (e2e_reject_missing_wire_map F fcal gain_of m run banks order Hb O)|].
+  split; [exact (e2e_reject_missing_wire_calibration F fcal gain_of m run banks order Hb O)|].
+  split; [exact (e2e_reject_malformed_chunk F fcal gain_of m run banks order Hb O)|].
+  split; [exact (e2e_reject_pad_board_mismatch F fcal gain_of m run banks order Hb O)|].
+  split; [exact (e2e_reject_malformed_pwb_packet F fcal gain_of m run banks order Hb O)|].
+  split; [exact (e2e_reject_missing_pad_map F fcal gain_of m run banks order Hb O)|].
+  split; [exact (e2e_reject_missing_pad_calibration F fcal gain_of m run banks order Hb O)|].
+  split; [exact (e2e_reject_duplicate_pad_signal F fcal gain_of m run banks order Hb O)|].
+  split; [exact (e2e_reject_malformed_trg F fcal gain_of m run banks order Hb O)|].
+  split; [exact (e2e_reject_duplicate_trg F fcal gain_of m run banks order Hb O)|].
+  exact (e2e_reject_missing_trg F fcal gain_of m run banks order Hb O).
+Qed.
+Print Assumptions C10_e2e_rejections.
+
+
+(* =============================================================================================== non-vacuity *)
+(* a TRG v3 packet with timestamp 1234 *)
+Definition e2e_ex_trg : list N :=
+  [255; 0; 0; 0; 7; 0; 0; 128; 210; 4; 0; 0; 7; 0; 0; 0; 12; 0; 0; 0; 0; 0; 0; 0; 5; 0; 0; 0; 6; 0; 0; 0; 7; 0; 0; 0;
+   8; 0; 0; 128; 10; 0; 0; 0; 8; 0; 0; 0; 0; 0; 0; 0; 9; 0; 10; 0; 11; 0; 0; 0; 0; 0; 0; 0; 12; 0; 0; 0; 13; 0; 0; 0;
+   14; 0; 0; 0; 7; 0; 0; 224].
+(* an ADC v3 long packet of board "09" (MAC d8:80:39:68:37:4c), channel byte 128 + 2, 132 requested = 130 samples:
+   100 samples of 3005, then 30 of 3007 (big-endian), no suppression, baseline word 3005 *)
+Definition e2e_ex_adc : list N :=
+  [1; 3; 0; 4; 5; 130; 0; 132; 0; 0; 0; 7; 0; 0; 216; 128; 57; 104; 55; 76] ++ repeat 0 12 ++
+  flat_map (fun _ => [11; 189]) (seq 0 100) ++ flat_map (fun _ => [11; 191]) (seq 0 30) ++ [0; 0; 11; 189].
+(* banks "C092", "ATAT", "MCVX" *)
+Definition e2e_ex_banks : list (list N * list N) :=
+  [([67; 48; 57; 50], e2e_ex_adc); ([65; 84; 65; 84], e2e_ex_trg); ([77; 67; 86; 88], [1; 2; 3])].
+(* the examples use an exact, symbolic sample type: a calibrated sample is the pair (raw - baseline, gain) *)
+Definition ex_F : Type := Z * (Z * Z).
+Definition ex_fcal' (d : Z) (g : ex_F) : ex_F := (d * fst g, snd g)%Z.
+Definition ex_gain (g : Z * Z) : ex_F := (1%Z, g).
+Definition e2e_ex_event : event ex_F :=
+  {| ev_wires := [(0, repeat (7, (1, 0))%Z 30)]; ev_pads := []; ev_ts := 1234 |}.
+
+Example E2E_hypothesis_satisfiable : Forall bytes (map snd e2e_ex_banks).
+Proof. apply Forall_forall. intros l H. apply bytesb_spec. revert l H. apply Forall_forall.
+  repeat constructor. Qed.
+(* simulation run: wire 0 gets (3007 - 3000) x gain (gain = 1 x 2^0) for the 30 samples after the delay of 100;
+   the reversed bank list under the reversed group order and without overflow checks gives the same event;
+   an unknown bank name, a run without maps, a second TRG bank are rejected *)
+Example E2E_nonvacuous_build :
+  let model := try_from_banks_model ex_fcal' ex_gain in
+  model Checked 4294967295 e2e_ex_banks (fun l => l) = Ok e2e_ex_event /\
+  model Wrapping 4294967295 (rev e2e_ex_banks) (@rev _) = Ok e2e_ex_event /\
+  is_err (model Checked 4294967295 (e2e_ex_banks ++ [([88; 88; 88; 88], [])]) (fun l => l)) = true /\
+  is_err (model Checked 100 e2e_ex_banks (fun l => l)) = true /\
+  is_err (model Checked 4294967295 (([65; 84; 65; 84], e2e_ex_trg) :: e2e_ex_banks) (fun l => l)) = true.
+Proof. vm_compute. repeat split; reflexivity. Qed.
+
